@@ -49,8 +49,22 @@ func scratchRoot() string {
 	if base == "" {
 		base = os.TempDir()
 	}
+	replay := false
+	for _, a := range os.Args[1:] {
+		if a == "-replay" || a == "--replay" {
+			replay = true // hxlib exits from inside Main in replay mode: stay inside the directory `check` removes
+		}
+	}
+	// leftovers of runs that were killed (timeout): remove what is older than an hour
+	if old, err := filepath.Glob("/dev/shm/verif-c14-*"); err == nil {
+		for _, d := range old {
+			if st, err := os.Stat(d); err == nil && time.Since(st.ModTime()) > time.Hour {
+				_ = os.RemoveAll(d)
+			}
+		}
+	}
 	// bbolt fsyncs on every Put: prefer the tmpfs when it is there
-	if st, err := os.Stat("/dev/shm"); err == nil && st.IsDir() {
+	if st, err := os.Stat("/dev/shm"); err == nil && st.IsDir() && !replay {
 		if d, err := os.MkdirTemp("/dev/shm", "verif-c14-"); err == nil {
 			return d
 		}
